@@ -688,6 +688,10 @@ def check(run):
     for f_ in ix.all_functions:
         if f_.module.name not in ("trimesh.nsphere", "trimesh.bounds", "trimesh.convex") or f_.parent is not None or f_.cls is not None or not f_.params:
             continue
+        if f_.name.startswith("_"):
+            # a private helper works on its caller's locals; what it does to an argument of the PUBLIC routine is in that routine's
+            # summary (the effect analysis is interprocedural)
+            continue
         s_ = ef6.summary(f_, None)
         n6 += 1
         bad = []
